@@ -58,6 +58,9 @@ func TestC07(t *testing.T) {
 	for i := 0; i < r.Pick(100, 3000); i++ {
 		cases = append(cases, mon.CaseSpec{Name: "slow-respondent", Spec: c07Spec{Mode: "slow", NCtx: 1 + rnd.Intn(2), NPipes: 2, NOps: rnd.Intn(20)}})
 	}
+	for i := 0; i < r.Pick(16, 400); i++ {
+		cases = append(cases, mon.CaseSpec{Name: "rawq", Spec: c07Spec{Mode: "rawq", NOps: i, NPipes: rnd.Intn(3)}})
+	}
 	for i := 0; i < r.Pick(24, 600); i++ {
 		cases = append(cases, mon.CaseSpec{Name: "openctx", Spec: c07Spec{Mode: "openctx", NCtx: 1 + i%2, NOps: i / 2}})
 	}
@@ -66,6 +69,8 @@ func TestC07(t *testing.T) {
 		switch sp.Mode {
 		case "openctx":
 			c07OpenCtx(c, sp)
+		case "rawq":
+			c07RawQ(c, sp)
 		case "slow":
 			c07Slow(c, sp)
 		case "script":
